@@ -1,5 +1,5 @@
 (* Codec/ProofsNum.v — C12: lemmas about the fixed-width number encodings of Codec/MemCmp.v *)
-From ZV Require Import Common.Bytes Common.BytesFacts Codec.Consts Codec.MemCmp.
+From ZV Require Import Common.Bytes Common.BytesFacts Codec.Consts Codec.MemCmp Codec.Keys Codec.Spec.
 From Coq Require Import ZifyN ZifyNat ZifyBool Lia.
 Open Scope N_scope.
 
@@ -188,7 +188,6 @@ Qed.
 
 (* ---------- int64 ---------- *)
 
-Definition int64_ok (v : Z) : Prop := (- 9223372036854775808 <= v < 9223372036854775808)%Z.
 
 Lemma u64_of_z_nonneg v : (0 <= v < 9223372036854775808)%Z -> u64_of_z v = Z.to_N v.
 Proof. intros H. unfold u64_of_z. rewrite Z.mod_small by lia. reflexivity. Qed.
@@ -297,7 +296,6 @@ Proof. intros. unfold encode_uint. apply be_cmp_exact; rewrite <- two64_pow; ass
 
 (* ---------- float64 by bit pattern ---------- *)
 
-Definition float_ok (u : N) : Prop := u < two64 /\ float_is_nan u = false.
 
 (* the comparable image of the order key *)
 Definition cmp_of_key (k : Z) : N :=
@@ -353,7 +351,6 @@ Proof.
 Qed.
 
 (* round trip: exact except that -0 decodes as +0 *)
-Definition float_norm (u : N) : N := if u =? two63 then 0 else u.
 
 Lemma cmp_to_float_to_cmp u : float_ok u -> cmp_to_float (float_to_cmp u) = float_norm u.
 Proof.
